@@ -32,8 +32,58 @@ _verdict(same_traj and err > 1e-4 * max(1.0, np.max(np.abs(FD))), max_abs_diff=f
 ''' % {'fw': forward, 'mu': float(env.get('mu', 0.0121)) or 0.0121, 'x0': [0.8, 0.05, 0.1, 0.02, 0.3, 0.05]}
 
 
+def _replay_general():
+    """General confirmation on the compiled build: for a generic out-of-plane state (and a corrected halo over one period) the STM
+    equals the finite-difference derivative of the flow, is symplectic for the CR3BP two-form, the backward STM is the inverse of
+    the forward one, and the orbit's monodromy is the forward STM over one period."""
+    return '''
+import warnings; warnings.filterwarnings("ignore")
+from hiten.system import System
+from hiten.algorithms.dynamics.rtbp import _compute_stm
+from hiten.algorithms.dynamics.base import _propagate_dynsys
+sysm = System.from_bodies("earth", "moon"); var, dyn = sysm.var_dynsys, sysm.dynsys
+bad = {}
+def flow(x, tf, forward=1):
+    sol = _propagate_dynsys(dynsys=dyn, state0=np.asarray(x, dtype=float), t0=0.0, tf=tf, forward=forward, steps=400, method="adaptive", order=8)
+    return np.asarray(sol.states[-1], dtype=float)
+Om = np.zeros((6, 6)); Om[0, 1] = -2.0; Om[1, 0] = 2.0
+for i in range(3): Om[i, 3 + i] = 1.0; Om[3 + i, i] = -1.0
+for name, x0, tf in (("generic_out_of_plane", np.array([0.83, 0.02, 0.05, 0.01, 0.12, -0.03]), 0.9),):
+    xx, tt, PhiT, PHI = _compute_stm(var, x0, tf, steps=400, forward=1)
+    PhiT = np.asarray(PhiT, dtype=float)
+    FD = np.zeros((6, 6)); e = 1e-6
+    for j in range(6):
+        d = np.zeros(6); d[j] = e
+        FD[:, j] = (flow(x0 + d, tf) - flow(x0 - d, tf)) / (2 * e)
+    err = float(np.max(np.abs(PhiT - FD)) / max(1.0, float(np.max(np.abs(FD)))))
+    if err > 1e-5: bad[name + "_stm_vs_finite_differences"] = err
+    sym = float(np.max(np.abs(PhiT.T @ Om @ PhiT - Om)))
+    if sym > 1e-6 * max(1.0, float(np.max(np.abs(PhiT))) ** 2): bad[name + "_symplectic_defect"] = sym
+    if abs(float(np.linalg.det(PhiT)) - 1.0) > 1e-6: bad[name + "_determinant"] = float(np.linalg.det(PhiT))
+    xb, tb, PhiB, _ = _compute_stm(var, np.asarray(xx[-1], dtype=float), tf, steps=400, forward=-1)
+    inv = float(np.max(np.abs(np.asarray(PhiB, dtype=float) @ PhiT - np.eye(6))))
+    if inv > 1e-5 * max(1.0, float(np.max(np.abs(PhiT)))): bad[name + "_backward_is_not_inverse"] = inv
+    if float(np.max(np.abs(np.asarray(xb[-1], dtype=float) - x0))) > 1e-7: bad[name + "_backward_state"] = float(np.max(np.abs(np.asarray(xb[-1], dtype=float) - x0)))
+o = sysm.get_libration_point(1).create_orbit("halo", amplitude_z=0.03, zenith="northern"); o.correct(); T = float(o.period)
+M = np.asarray(o.monodromy, dtype=float)
+_, _, PhiT, _ = _compute_stm(var, o.initial_state, T, steps=2000, forward=1)
+dM = float(np.max(np.abs(M - np.asarray(PhiT, dtype=float))) / float(np.max(np.abs(M))))
+if dM > 1e-6: bad["monodromy_is_not_the_forward_stm_over_one_period"] = dM
+from hiten.system.orbits.base import GenericOrbit
+g = GenericOrbit(sysm.get_libration_point(1), initial_state=np.array([0.83, 0.02, 0.05, 0.01, 0.12, -0.03])); g.period = 0.9      # no symmetry to exploit
+Mg = np.asarray(g.monodromy, dtype=float)
+_, _, PhiG, _ = _compute_stm(var, g.initial_state, 0.9, steps=2000, forward=1)
+dG = float(np.max(np.abs(Mg - np.asarray(PhiG, dtype=float))) / float(np.max(np.abs(Mg))))
+if dG > 1e-6: bad["monodromy_of_an_asymmetric_arc_is_not_the_forward_stm_over_its_period"] = dG
+w = np.linalg.eigvals(M)
+if float(np.min(np.abs(w - 1.0))) > 1e-3: bad["monodromy_has_no_unit_eigenvalue"] = float(np.min(np.abs(w - 1.0)))
+_verdict(bool(bad), **bad)
+'''
+
+
 def main():
     chk = Check(PID)
+    chk.default_replay = _replay_general
     import hiten.algorithms.dynamics.rtbp as rtbp
     import hiten.algorithms.dynamics.base as dbase
     import hiten.algorithms.integrators.rk as rk
